@@ -11,7 +11,9 @@ package rules
 // that test are the same thing.
 
 import (
+	"go/constant"
 	"go/token"
+	"go/types"
 	"sync"
 
 	"golang.org/x/tools/go/ssa"
@@ -55,6 +57,9 @@ func condAtoms(cond ssa.Value, truth bool, depth int) []condAtom {
 		if c.Op == token.NOT {
 			return condAtoms(c.X, !truth, depth+1)
 		}
+		if b, ok := cond.Type().Underlying().(*types.Basic); ok && b.Kind() == types.Bool && c.Op == token.MUL {
+			return []condAtom{{op: token.EQL, x: cond, y: ssa.NewConst(constant.MakeBool(truth), cond.Type())}}
+		}
 	case *ssa.BinOp:
 		op := c.Op
 		if _, isCmp := negOp(op); !isCmp {
@@ -90,6 +95,11 @@ func condAtoms(cond ssa.Value, truth bool, depth int) []condAtom {
 		out = append(out, edgeAtoms(pred, c.Block(), depth+1)...)
 		out = append(out, guardsAtDepth(pred, depth+1)...)
 		return out
+	case *ssa.Field, *ssa.Extract, *ssa.Lookup, *ssa.Parameter:
+		// a boolean value used as the condition (row.ok, a comma-ok result): value == truth
+		if b, ok := cond.Type().Underlying().(*types.Basic); ok && b.Kind() == types.Bool {
+			return []condAtom{{op: token.EQL, x: cond, y: ssa.NewConst(constant.MakeBool(truth), cond.Type())}}
+		}
 	}
 	return nil
 }
